@@ -7,10 +7,16 @@ use crate::interpreter::interpreter_trait::InterpreterTrait;
 
 pub fn run<S: InterpreterTrait>(interpreter: &mut S) -> Result<(), RuntimeError> {
     let v: &Variant = &interpreter.context()[0];
-    let len: i32 = v.byte_size() as i32;
+    // an INTEGER, unless the length is beyond 32767 (a string can be longer here than in QBasic)
+    let len = v.byte_size();
+    let result = if len <= i16::MAX as usize {
+        Variant::VInteger(len as i32)
+    } else {
+        Variant::VLong(len as i64)
+    };
     interpreter
         .context_mut()
-        .set_built_in_function_result(BuiltInFunction::Len, len);
+        .set_built_in_function_result(BuiltInFunction::Len, result);
     Ok(())
 }
 
